@@ -34,7 +34,7 @@ ASSUMPTIONS = [
     "the constant 4 per source is deliberately generous (current item, previous item, tuple under construction, one in flight)",
     "cycle, sorted, the collection builders and lagging tee children are exempt as documented",
 ]
-PROBES = ("len>=800", "tee_lagging_child_closed", "aggregation", "multi_source", "window_tool")
+PROBES = ("tee_child_failed_and_abandoned", "lazy_sequence_source", "len>=800", "tee_lagging_child_closed", "aggregation", "multi_source", "window_tool")
 
 TOOLS = ("zip", "map", "filter", "filterfalse", "enumerate", "accumulate", "batched", "chain", "compress",
          "dropwhile", "takewhile", "islice", "pairwise", "starmap", "zip_longest", "merge", "tee", "groupby", "chain_from_iterable",
@@ -80,8 +80,13 @@ class Light:
         return Light(other + self.key)
 
 
-def make_stream(sim, cnt, length, flavour, every, keyfn, wrap=None, check_on_pull=False):
+class TransientError(Exception):
+    pass
+
+
+def make_stream(sim, cnt, length, flavour, every, keyfn, wrap=None, check_on_pull=False, fault_at=None):
     """Fresh items; nothing but the consumer side can keep them alive"""
+    fault_at = [fault_at]
 
     def on_dead(_ref, cnt=cnt):
         cnt.alive -= 1
@@ -90,18 +95,38 @@ def make_stream(sim, cnt, length, flavour, every, keyfn, wrap=None, check_on_pul
 
     def produce(i):
         item = Light(keyfn(i))
-        refs.append(weakref.ref(item, on_dead))
+        out_ = item if wrap is None else wrap(item)
+        # what is tracked is the object handed out if it can be tracked (a chunk), else the item inside it
+        tracked = out_ if (wrap is not None and hasattr(type(out_), "__weakref__")) else item
+        refs.append(weakref.ref(tracked, on_dead))
         cnt.alive += 1
         cnt.delivered += 1
         if cnt.alive > cnt.peak:
             cnt.peak = cnt.alive
-        return item if wrap is None else wrap(item)
+        return out_
 
     def check():
         # one item is about to be produced: everything delivered so far is judged
         if cnt.alive > cnt.bound and cnt.over is None:
             cnt.over = (cnt.alive, cnt.delivered)
 
+    if flavour == 2:
+        import collections.abc
+
+        class LazySeq(collections.abc.Sequence):
+            """A real Sequence that creates its items on demand and keeps none of them"""
+
+            def __len__(self):
+                return length
+
+            def __getitem__(self, i):
+                if not 0 <= i < length:
+                    raise IndexError(i)
+                if check_on_pull:
+                    check()
+                return produce(i)
+
+        return LazySeq(), refs
     if flavour == 0:
         async def agen():
             for i in range(length):
@@ -124,6 +149,9 @@ def make_stream(sim, cnt, length, flavour, every, keyfn, wrap=None, check_on_pul
             i = self.i
             if i >= length:
                 raise StopAsyncIteration
+            if i == fault_at[0]:
+                fault_at[0] = None
+                raise TransientError(i)  # transient: the iterator keeps producing afterwards
             self.i = i + 1
             if every and i % every == 0:
                 await sim.suspend(PAUSE, None, "stream")
@@ -140,7 +168,7 @@ def make_stream(sim, cnt, length, flavour, every, keyfn, wrap=None, check_on_pul
 def gen(ch):
     sc = {"tool": TOOLS[ch.draw(len(TOOLS))]}
     sc["length"] = (50, 120, 300, 800, 2000, 6000)[ch.weighted([12, 10, 6, 4, 2, 1])]
-    sc["flavour"] = ch.draw(2)
+    sc["flavour"] = ch.weighted([4, 4, 1])  # async generator | class-based async iterator | lazy sync Sequence
     sc["every"] = (0, 1, 7, 50)[ch.draw(4)]
     sc["nsrc"] = 1
     t = sc["tool"]
@@ -151,7 +179,9 @@ def gen(ch):
     sc["n"] = ch.between(1, 40)  # batch size / n of nlargest / islice step
     sc["gb"] = (ch.draw(3), ch.draw(3))  # groupby: key (none | item itself | derived), consumption (keys | peek | all)
     sc["lens"] = [max(10, sc["length"] - ch.draw(40)) for _ in range(sc["nsrc"])]
+    sc["chunks"] = t == "sum" and ch.chance(1, 3)   # sum over list chunks with a list start
     if t == "tee":
+        sc["transient_at"] = ch.draw(sc["length"]) if ch.chance(1, 4) else None
         sc["children"] = ch.between(2, 4)
         sc["lead"] = ch.between(1, 30)
         sc["close_at"] = [ch.draw(sc["length"]) if ch.chance(1, 3) else None for _ in range(sc["children"])]
@@ -196,8 +226,16 @@ def execute(st, ctx):
     wrap = (lambda item: (item, item)) if tool == "starmap" else None
     streams = []
     all_refs = []
+    transient = sc.get("transient_at") if (tool == "tee" and sc["flavour"] == 1) else None
+    if tool == "sum" and sc.get("chunks"):
+        # list chunks (weak-referenceable list subclass) summed onto a list start: the chunks must not pile up
+        class Chunk(list):
+            __slots__ = ("__weakref__",)
+
+        wrap = lambda item: Chunk([item.key])  # noqa: E731
     for s in range(nsrc):
-        stream, refs = make_stream(sim, cnt, sc["lens"][s], sc["flavour"], sc["every"], keyfn, wrap, check_on_pull=is_agg)
+        stream, refs = make_stream(sim, cnt, sc["lens"][s], sc["flavour"], sc["every"], keyfn, wrap, check_on_pull=is_agg,
+                                   fault_at=transient)
         streams.append(stream)
         all_refs.append(refs)
     res = {"steps": 0, "end": None, "error": None, "tee_bound_max": 0}
@@ -217,7 +255,7 @@ def execute(st, ctx):
             elif tool == "any":
                 aw = L.any(L.map(lambda x: False, S))
             elif tool == "sum":
-                aw = L.sum(S)
+                aw = L.sum(S, []) if sc.get("chunks") else L.sum(S)
             elif tool == "min":
                 aw = L.min(S)
             elif tool == "max":
@@ -257,6 +295,11 @@ def execute(st, ctx):
                         counts[c] += 1
                     except StopAsyncIteration:
                         live[c] = False
+                    except TransientError:
+                        # the child that hit the error is dropped by its consumer: neither closed nor polled again;
+                        # its generator is finished, so it is not a live child any more
+                        live[c] = False
+                        out.probes["tee_child_failed_and_abandoned"] = 1
                 alive_counts = [counts[i] for i in range(len(live)) if live[i]]
                 # what the fastest child (finished or not) has fetched and the slowest live child has not yielded
                 lead = (max(counts) - min(alive_counts)) if alive_counts else 0
@@ -275,7 +318,7 @@ def execute(st, ctx):
             async def members():
                 # lazily supplied container members: lists (or tuples) of fresh items
                 batch = []
-                async for item in inner:
+                async for item in L.iter(inner):
                     batch.append(item)
                     del item
                     if len(batch) == size:
@@ -380,6 +423,8 @@ def execute(st, ctx):
             out.violate("C20.retention_grows", sig, describe())
     if sc["length"] >= 800:
         out.probes["len>=800"] = 1
+    if sc["flavour"] == 2:
+        out.probes["lazy_sequence_source"] = 1
     if is_agg:
         out.probes["aggregation"] = 1
     if nsrc > 1:
